@@ -67,7 +67,7 @@ def same_text(a, b):
 class C13(C.PipelineCheck):
     id = 'C13'
     title = 'Output is a deterministic function of sources and configuration'
-    required_covers = ('two-runs', 'verbose', 'visualize', 'decoy', 'duplicate', 'reorder', 'move')
+    required_covers = ('two-runs', 'verbose', 'visualize', 'decoy', 'duplicate', 'multi-payload', 'reorder', 'move')
 
     def bounds(self, tier):
         return {'project': 'two or three files with three commands, three structs, one enum, two events (one with an untyped payload binding); one symbolic struct name '
@@ -90,6 +90,7 @@ class C13(C.PipelineCheck):
             for d in range(len(DECOYS)):
                 yield ('decoy/%s/%d' % (mode, d), dict(kind='decoy', mode=mode, d=d))
             yield ('duplicate/%s' % mode, dict(kind='duplicate', mode=mode))
+            yield ('multi-payload/%s' % mode, dict(kind='multi-payload', mode=mode))
             yield ('reorder/%s' % mode, dict(kind='reorder', mode=mode))
             yield ('move/%s' % mode, dict(kind='move', mode=mode))
 
@@ -139,7 +140,7 @@ class C13(C.PipelineCheck):
             e.order_dirs = 'insertion' if reference else ('insertion', 'reverse')[e.choose(2)]
             if reference:
                 e.order_mode = 'insertion'
-            elif kind not in ('two-runs', 'duplicate') and ctx.tier != 'thorough':
+            elif kind not in ('two-runs', 'duplicate', 'multi-payload') and ctx.tier != 'thorough':
                 # transformations are compared under two global schedules; all orders are covered by two-runs
                 e.order_mode = ('insertion', 'reverse')[e.choose(2)]
             else:
@@ -176,6 +177,16 @@ class C13(C.PipelineCheck):
                 pa, ra = generate(e, dup, holes, reference=True)
                 pb, rb = generate(e, dup, holes)
                 e.cover('duplicate')
+                relation = 'identical'
+            elif kind == 'multi-payload':
+                # one event name emitted with several payload types from two files: whatever the listener is typed with, it is the same under every schedule
+                mp = {'src/jobs.rs': C.HEADER + '#[derive(Serialize, Deserialize, Clone)]\npub struct Progress { pub done: u32 }\n#[derive(Serialize, Deserialize, Clone)]\npub struct HOLE_s { pub total: u32 }\n' +
+                      '#[tauri::command]\npub fn run(app: tauri::AppHandle) { app.emit("job-state", Progress { done: 1 }).unwrap(); app.emit("job-state", HOLE_s { total: 2 }).unwrap(); }\n',
+                      'src/cancel.rs': C.HEADER + '#[derive(Serialize, Deserialize, Clone)]\npub struct Failure { pub why: String }\n' +
+                      '#[tauri::command]\npub fn cancel(app: tauri::AppHandle) { app.emit("job-state", Failure { why: String::new() }).unwrap(); app.emit("other", 1).unwrap(); }\n'}
+                pa, ra = generate(e, mp, holes, reference=True)
+                pb, rb = generate(e, mp, holes)
+                e.cover('multi-payload')
                 relation = 'identical'
             elif kind == 'flags':
                 which = e.choose(3)
